@@ -142,10 +142,19 @@ func (s *Server) serve(ctx context.Context, listener net.Listener, handler Modbu
 	l := onceCloseListener{Listener: listener}
 	defer l.Close()
 
+	// Accept does not know about the context and blocks until next connection arrives. To end serving when context is
+	// cancelled the listener is closed, which makes blocked Accept to return.
+	watchCtx, stopWatching := context.WithCancel(ctx)
+	defer stopWatching()
+	go func() {
+		<-watchCtx.Done() // ctx was cancelled or serve is returning
+		_ = l.Close()
+	}()
+
 	for {
 		netConn, err := l.Accept()
 		if err != nil {
-			if s.isShutdown.Load() {
+			if s.isShutdown.Load() || ctx.Err() != nil {
 				return ErrServerClosed
 			}
 			return err
